@@ -335,7 +335,7 @@ def run_sanitizer_stage(st, prop, tier, seed, root, harness, repo, nproc, work):
             log(msg)
             return None
         per = 60 if tier == "quick" else 150
-        tl = 75 if tier == "quick" else 400
+        tl = 45 if tier == "quick" else 400
         for i in range(nproc):
             out = os.path.join(work, "miri_%02d.json" % i)
             cmds.append(["cargo", "+nightly", "miri", "run", "--offline", "-p", "vh", "--features", "small-tables", "--",
